@@ -7,7 +7,7 @@ d=/verif/seeded/$id
 prop=$(python3 -c "import json;print(json.load(open('$d/meta.json'))['breaks_property'])")
 cd /repo && git diff --quiet || { echo "/repo not clean"; exit 2; }
 git apply $d/patch.diff || { echo "patch does not apply"; exit 2; }
-cd /verif && res=$(timeout 3600 ./check $prop --tier $tier 2>&1 | grep -E "VIOLATION|UNDECIDED|tier=" | cut -c1-400)
+cd /verif && res=$(VERIF_NO_EVIDENCE=1 timeout 3600 ./check $prop --tier $tier 2>&1 | grep -E "VIOLATION|UNDECIDED|tier=" | cut -c1-400)
 git -C /repo checkout -- .
 python3 - "$id" "$tier" "$res" <<'PY'
 import json,sys
